@@ -132,10 +132,14 @@ def build():
     w.kinds['Ref_Change'] = K.Ref('ChangeField')
     # folding a later ChangeField into the earlier mutation: the later statement wins attribute by attribute, a type or
     # initial value it does not state is kept, nothing else changes
+    POPULATES = {
+        'AddField': 'old(dest_mutation.initial) is not None',
+        'ChangeField': "old(dest_mutation.initial) is not None and old('null' in dest_mutation.field_attrs) and "
+                       "not truthy(old(dest_mutation.field_attrs['null']))"}
     for dest_cls in ('AddField', 'ChangeField'):
         other = 'ChangeField' if dest_cls == 'AddField' else 'AddField'
         w.contract(
-            'AppMutator._copy_change_attrs', module=APPMUT, serves=['C03', 'C01'],
+            'AppMutator._copy_change_attrs', module=APPMUT, serves=['C03', 'C01', 'C02'],
             params={'self': K.Ref('AppMutator'), 'source_mutation': K.Ref('ChangeField'), 'dest_mutation': K.Ref(dest_cls)},
             requires=['source_mutation is not dest_mutation'] if dest_cls == 'ChangeField' else [],
             raises={},
@@ -150,8 +154,11 @@ def build():
                 '       dest_mutation.field_attrs[k] == old(dest_mutation.field_attrs[k])))',
                 'dest_mutation.field_type == (old(source_mutation.field_type) if old(source_mutation.field_type) is not None '
                 '                             else old(dest_mutation.field_type))',
-                'dest_mutation.initial == (old(source_mutation.initial) if old(source_mutation.initial) is not None '
-                '                          else old(dest_mutation.initial))',
+                # the initial value of the mutation that populates the column (an AddField, or a ChangeField making it
+                # non-null) stays in effect; otherwise the later statement's value is taken over
+                'dest_mutation.initial == (old(dest_mutation.initial) if %s else '
+                '    (old(source_mutation.initial) if old(source_mutation.initial) is not None else old(dest_mutation.initial)))'
+                % POPULATES[dest_cls],
             ],
             note='verified once per destination class (AddField, ChangeField)')
         c = w.contracts.pop('AppMutator._copy_change_attrs')
@@ -236,14 +243,17 @@ def replay_copy(dest_cls, label, inputs):
                              max_length=10, db_index=True)
         else:
             dst = M.ChangeField('T', 'f', initial=('d-init' if d_init else None),
-                                field_type=(models.CharField if d_type else None), max_length=10, db_index=True)
+                                field_type=(models.CharField if d_type else None), max_length=10, null=False)
         want_attrs = dict(dst.field_attrs)
         want_attrs.update(src.field_attrs)
         want_type = src.field_type if src.field_type is not None else dst.field_type
-        want_init = src.initial if src.initial is not None else dst.initial
+        populates = dst.initial is not None and (dest_cls == 'AddField' or dst.field_attrs.get('null') is False)
+        want_init = dst.initial if populates else (src.initial if src.initial is not None else dst.initial)
         AppMutator._copy_change_attrs(None, src, dst)
         got = (dict(dst.field_attrs), dst.field_type, dst.initial)
-        if got != (want_attrs, want_type, want_init):
+        want = (want_attrs, want_type, want_init)
+        part = {'post[3]': slice(1, 2), 'post[4]': slice(2, 3)}.get(label, slice(0, 1) if label.startswith('post[') else slice(0, 3))
+        if got[part] != want[part]:
             return {'reproduced': True, 'got': repr(got), 'want': repr((want_attrs, want_type, want_init)),
                     'inputs': {'source states type/initial': [s_type, s_init], 'dest states type/initial': [d_type, d_init]}}
     return {'reproduced': False, 'note': 'all shapes satisfy the postconditions'}
